@@ -116,7 +116,7 @@ func Ob_C11C13C14_HandleExpiredShard_Release() {
 
 // C11 HandleExpiredShard, rotate branch: a shard with a queued renewal rotates to the next period and is
 // rescheduled at now + that period; it is not released.
-func Ob_C11C13_HandleExpiredShard_Rotate() {
+func Ob_C07C11C13_HandleExpiredShard_Rotate() {
 	w := NewWorld()
 	sym.SetBound("Shard.RenewInfos", 2)
 	sid := sym.Uint64("shardId")
@@ -144,6 +144,8 @@ func Ob_C11C13_HandleExpiredShard_Rotate() {
 	e, has := w.Sao.GetExpiredShard(w.Ctx, uint64(w.Height())+next.Duration)
 	sym.Assert("C11.rotate-rescheduled", has && inListU64(sid, e.ShardList))
 	sym.Assert("C07.rotate-no-collateral-move", w.TransferCount() == nT)
+	// the collateral recorded on the shard is what sits in escrow for it: a rotation, which moves nothing, keeps it
+	sym.Assert("C07.rotate-keeps-shard-pledge", s1.Pledge.Amount.Equal(s.Pledge.Amount) && s1.Pledge.Denom == s.Pledge.Denom)
 	if hadP {
 		p1, _ := w.Node.GetPledge(w.Ctx, s.Sp)
 		sym.Assert("C14.rotate-keeps-capacity", p1.UsedStorage == p0.UsedStorage && p1.TotalShardPledged.Amount.Equal(p0.TotalShardPledged.Amount))
